@@ -297,7 +297,7 @@ class DocGen:
             ops = []
             for i in range(n):
                 kind = (kinds[i] if kinds else rng.choice(avail if i else avail[:1] + avail))
-                name = rng.choice(["Op%d", "GetThing%d", "Q%dx"]) % (i + 1)
+                name = rng.choice(["Op%d", "GetThing%d", "Q%dx", "getThing%d", "My_Query%d", "HTTPQuery%d"]) % (i + 1)
                 op = self.operation(kind, name)
                 if op is None:
                     break
